@@ -347,9 +347,10 @@ theorem C08_restrict_links (t : Topo) (flagsT : Nat) (s : CSet) (flags : Nat) (e
     objClause "special-list-links" (afterDump t flagsT s flags ex) (mkAux (afterDump t flagsT s flags ex)) o = true :=
   C08_render_links _ (typed_restrict t s flags ht hr).1 _ ex o ho
 
-/-- … the PU part of no-children-where-forbidden still needs "PUs are leaves" on the RESULT: level merging keeps it only
-    because hwloc_compare_levels_structure refuses to merge a level with memory children into the PU level, a level-wide guard
-    whose node-wise consequence is not proved (the driver evaluates puLeafT on every AFTER tree) -/
+/-- … the PU part of no-children-where-forbidden needs "PUs are leaves" on the RESULT: level merging keeps it only because
+    hwloc_compare_levels_structure refuses to merge a level with memory children into the PU level, a level-wide guard whose
+    node-wise consequence is proved in Hw.Topo.RestrictMerge (A8): see C08_restrict_wf_partial for the statement without this
+    hypothesis (the driver still evaluates puLeafT on every AFTER tree) -/
 theorem C08_restrict_no_children (t : Topo) (flagsT : Nat) (s : CSet) (flags : Nat) (ex : RObj → Extra)
     (ht : typedT t.tree = true) (hr : isNormal t.tree.obj.type = true) (hpu : puLeafT (restrict t s flags).1.tree = true)
     (o : Obj) (ho : o ∈ (afterDump t flagsT s flags ex).objs) :
@@ -502,6 +503,15 @@ theorem C08_wf_implies_okT (d : Dump) (h : WF d) (t : Tree) (ht : treeOf d = .ok
     puSetsT t = true ∧ numaSetsT t = true :=
   wf_treeOf_full h t ht
 
+/-- (2) … the rebuilt tree lists every object of the dump exactly once, so gp_index is distinct over the tree and, when the PU
+    and Machine types are not filtered KEEP_STRUCTURE (hwloc_topology_set_type_filter refuses that), the topology is `mergeSafe`:
+    EVERY hypothesis of the theorems of this file follows from `WF d` and these two filter facts -/
+theorem C08_wf_mergeSafe (d : Dump) (h : WF d) (t : Tree) (ht : treeOf d = .ok t) (ac an : Nat)
+    (hf1 : filterOf d.filters tPU ≠ filterKeepStructure) (hf2 : filterOf d.filters tMACHINE ≠ filterKeepStructure) :
+    (objsT t).Perm (d.objs.map robjOf) ∧ machineOnce t ∧
+    mergeSafe { tree := t, allowedCpu := ac, allowedNode := an, filters := d.filters } :=
+  ⟨treeOf_perm h t ht, treeOf_machineOnce h t ht, treeOf_gp_nodup h t ht, hf1, by rw [(wf_treeOf h t ht).2.2.1]; exact hf2⟩
+
 /-- … hence the set, link and level theorems above (C08_sets_exact_whole, C08_restrict_links, C08_restrict_levels, C08_repeat_exact)
     apply to every history of calls that starts from a well-formed topology, with no hypothesis besides `WF d` -/
 theorem C08_wf_restrict_typing (d : Dump) (h : WF d) (t : Tree) (ht : treeOf d = .ok t) (ac an : Nat) (calls : List (CSet × Nat)) :
@@ -643,21 +653,23 @@ theorem C08_render_children_counts (t : Tree) (ht : typedT t = true) (h : Hdr) (
   render_children_counts t ht h ex o ho
 
 /-- (4) **C08_restrict_wf_partial**: for an input whose tree is typed, has PUs as leaves, a Machine root and is `mergeSafe` (all
-    consequences of WF except gp-distinctness of the TREE, which the driver evaluates; see C08_wf_implies_okT), the topology
+    consequences of WF and of the API fact about filters: C08_wf_implies_okT, C08_wf_mergeSafe), the topology
     after ANY restrict call — with NO hypothesis on the result — satisfies, besides the 7 link clauses of C08_restrict_links and
-    the 9 level clauses of C08_restrict_levels: no-children-where-forbidden and children-counts (every object), root-is-machine
-    and level0-is-root.
+    the 9 level clauses of C08_restrict_levels: no-children-where-forbidden and children-counts (every object), root-is-machine,
+    level0-is-root and machine-only-at-root (`machineOnce`: at most one Machine object, C08_wf_mergeSafe).
     Named _partial because the full `WF (afterDump …)` is not reached: still judged by wfCheck on the real AFTER dump are
-    levels-cover-objects, normal-level-types, type-depth-inverse, pu-level-deepest, machine-only-at-root,
+    levels-cover-objects, normal-level-types, type-depth-inverse, pu-level-deepest,
     numa-exists (reduced to the survival of one NUMA node: C08_restrict_numa_exists) and the set / memory / attribute clauses
     other than the proved set statements (SetsOK, PU / NUMA singletons, exactness). -/
 theorem C08_restrict_wf_partial (t : Topo) (flagsT : Nat) (s : CSet) (flags : Nat) (ex : RObj → Extra)
-    (ht : typedT t.tree = true) (hm : t.tree.obj.type = tMACHINE) (hl : puLeafT t.tree = true) (hs : mergeSafe t) :
+    (ht : typedT t.tree = true) (hm : t.tree.obj.type = tMACHINE) (hl : puLeafT t.tree = true) (hs : mergeSafe t)
+    (h1m : machineOnce t.tree) :
     (∀ o ∈ (afterDump t flagsT s flags ex).objs,
       objClause "no-children-where-forbidden" (afterDump t flagsT s flags ex) (mkAux (afterDump t flagsT s flags ex)) o = true ∧
       objClause "children-counts" (afterDump t flagsT s flags ex) (mkAux (afterDump t flagsT s flags ex)) o = true) ∧
     topClause "root-is-machine" (afterDump t flagsT s flags ex) (mkAux (afterDump t flagsT s flags ex)) = true ∧
-    topClause "level0-is-root" (afterDump t flagsT s flags ex) (mkAux (afterDump t flagsT s flags ex)) = true := by
+    topClause "level0-is-root" (afterDump t flagsT s flags ex) (mkAux (afterDump t flagsT s flags ex)) = true ∧
+    topClause "machine-only-at-root" (afterDump t flagsT s flags ex) (mkAux (afterDump t flagsT s flags ex)) = true := by
   have hr : isNormal t.tree.obj.type = true := by rw [hm]; decide
   have h1 := typed_restrict t s flags ht hr
   have h2 := restrict_leaf_root t s flags ht hr hl hs
@@ -665,7 +677,7 @@ theorem C08_restrict_wf_partial (t : Topo) (flagsT : Nat) (s : CSet) (flags : Na
     have := congrArg RObj.type h2.2.1; exact this.trans hm
   exact ⟨fun o ho => ⟨C08_render_no_children _ h1.1 h2.1 _ ex o ho, render_children_counts _ h1.1 _ ex o ho⟩,
     render_root_is_machine _ hm' _ ex,
-    render_level0_is_root _ hm' _ ex⟩
+    render_level0_is_root _ hm' _ ex, render_machine_only_at_root _ hm' (machineOnce_restrict t s flags h1m) _ ex⟩
 
 /-- (4) numa-exists after a successful restrict, reduced to one protected NUMA node of the input: by cpuset a NUMA node that is
     not (REMOVE_CPULESS and CPU-less afterwards) — without REMOVE_CPULESS: any NUMA node —, by nodeset a NUMA node whose os_index
@@ -730,6 +742,7 @@ theorem C08_reorder_without_removal_reachable :
     carried field) is a well-formed dump and `treeOf` rebuilds a tree from it -/
 def demoDump : Dump := render demo.tree ⟨0, List.replicate 20 0, some 6, some 1⟩ (fun _ => {})
 example : WF demoDump := by decide +kernel
+example : filterOf demoDump.filters tPU ≠ filterKeepStructure ∧ filterOf demoDump.filters tMACHINE ≠ filterKeepStructure := by decide +kernel
 example : (match treeOf demoDump with | .ok t => (objsT t).map (·.gp) == [1, 2, 3, 9, 4, 5, 6] | .error _ => false) = true := by
   decide +kernel
 example : okT demo.tree = true ∧ typedT demo.tree = true ∧ isNormal demo.tree.obj.type = true := by decide +kernel
@@ -747,7 +760,7 @@ example : (plan demoMerge ⟨1, false⟩ (flagByNodeset ||| flagRemoveMemless)).
 
 /-- non-vacuity of the `mergeSafe` theorems: demo and demoMerge are mergeSafe; on demoMerge the call merges the Package level away
     (C08_merge_keeps_pus at work: PU 0 survives under the L2 cache that replaced Package 0) -/
-example : mergeSafe demo ∧ mergeSafe demoMerge ∧ puLeafT demoMerge.tree = true ∧ demoMerge.tree.obj.type = tMACHINE := by decide +kernel
+example : mergeSafe demo ∧ mergeSafe demoMerge ∧ machineOnce demoMerge.tree ∧ puLeafT demoMerge.tree = true ∧ demoMerge.tree.obj.type = tMACHINE := by decide +kernel
 example : ((objsT (restrict demoMerge ⟨1, false⟩ (flagByNodeset ||| flagRemoveMemless)).1.tree).filter (fun o => o.type == tPU)).map (·.osidx) = [0] ∧
     (objsT (restrict demoMerge ⟨1, false⟩ (flagByNodeset ||| flagRemoveMemless)).1.tree).length + 7 = (objsT demoMerge.tree).length := by
   decide +kernel
